@@ -103,6 +103,18 @@ type Ctx struct {
 }
 
 func newCtx(P *Program, SS *SpecSet, fn *ssa.Function, spec *FuncSpec, key string) *Ctx {
+	// `implements F`: the function is verified against the contract of the function type F as well (its ensures are
+	// added to the function's own; its requires may be assumed), so that it may be passed where an F is expected
+	if spec != nil && spec.Implements != "" {
+		if fs := SS.Funcs["funcspec::"+spec.Implements]; fs != nil {
+			cp := *spec
+			cp.Requires = append(append([]*Clause{}, spec.Requires...), fs.Requires...)
+			cp.Ensures = append(append([]*Clause{}, spec.Ensures...), fs.Ensures...)
+			cp.Modifies = append(append([]string{}, spec.Modifies...), fs.Modifies...)
+			cp.HasBody = true
+			spec = &cp
+		}
+	}
 	return &Ctx{P: P, SS: SS, Fn: fn, Spec: spec, Key: key,
 		sortSeen: map[string]bool{}, declSeen: map[string]bool{}, oblCount: map[string]int{},
 		Assumptions: map[string]bool{}, Unmodelled: map[string]bool{}, tags: map[string]int{}, strlits: map[string]string{},
